@@ -497,6 +497,7 @@ pub fn shard_c17(seed: u64, shard: u32, cases: u32) -> ShardOut {
         let first: std::cell::RefCell<Option<(C17Case, String)>> = std::cell::RefCell::new(None);
         let res = r.run(&lock_s(), |c| {
             let C17Case::Lock(lc) = &c else { unreachable!() };
+            phase(&format!("C17 lock case {}", serde_json::to_string(&c).unwrap_or_default()));
             let mut g = out.borrow_mut();
             let mut tmp = LockStats::default();
             let rr = run_lock(&dir, lc, if failed.get() { &mut tmp } else { &mut *g.1 });
@@ -655,8 +656,5 @@ pub fn check_c17(tier: &str, seed: u64) -> i32 {
         }
         return 1;
     }
-    if !m.inconclusive.is_empty() {
-        return 2;
-    }
-    0
+    crate::driver::exit_code_for_inconclusive(&m)
 }
